@@ -216,7 +216,7 @@ def run_worker(mod, tier, seed, shard, nshards, out_path, budget_s, reach=None):
         mod.worker(ctx)
     except Exception:
         status = 'crashed'
-        ctx.note('worker crashed: ' + traceback.format_exc()[-1500:])
+        ctx.note('worker crashed: ' + traceback.format_exc()[-900:])
     finally:
         if reach is not None:
             reach.stop()
@@ -317,7 +317,7 @@ def run_property(mod, tier, seed):
         merge(results, ctx)
         for r in results:
             if r.get('status') != 'ok':
-                inconclusive.append('a worker crashed: %s' % '; '.join(r['notes'][-1:]))
+                inconclusive.append('a worker crashed: %s' % '; '.join(n for n in r['notes'] if n.startswith('worker crashed'))[-900:])
         if hasattr(mod, 'finalize'):
             try:
                 mod.finalize(ctx, [r['blobs'] for r in results])
@@ -389,8 +389,13 @@ def run_property(mod, tier, seed):
     if new:
         return EXIT_VIOLATION
     if inconclusive:
+        shown = set()
         for r in inconclusive:
-            print('INCONCLUSIVE: %s' % r[:600])
+            k = r[-300:]
+            if k in shown:
+                continue
+            shown.add(k)
+            print('INCONCLUSIVE: %s' % (r if len(r) < 700 else r[:150] + ' ... ' + r[-500:]))
         return EXIT_INCONCLUSIVE
     return EXIT_HELD
 
